@@ -15,7 +15,7 @@ TEXT = ("Ordering (must-precede / dominance) rules that replace crash-point enum
         "backends (propagated with `?`, returned, matched, or tested with is_ok for meld's per-item copies). O5: each "
         "meld write copies one source item (key and bytes derive from the same element). Together with C02 (blocks "
         "whose dependencies did not arrive are ignored) this is the whole atomicity argument for commit; does not "
-        "decide byte-identity of a retry after the second write failed.")
+        "decide byte-identity of a retry after the second write failed. O6: a raw writer (pack writer, raw item writer) reports success only on paths through its adapter write; the accepted bypasses are `nothing staged` and a memo filled exclusively behind the success edge of that write.")
 TECHNIQUE = 'static analysis over rustc MIR: must-precede (success-edge dominance) of pack write, block write and in-memory state changes; dropped-Result detection; per-item provenance of meld copies'
 TRUSTED = ["rustc nightly MIR", "single-item adapter writes are atomic (the property's assumption)", "C02 gating of incomplete blocks"]
 
